@@ -24,13 +24,14 @@
    BLOCK ALGORITHM as a resumption (Model/BlockAlg.v: compute_inner over the engine interface, built from the translated item
    pipeline and the in-flow step function that C10's K runs against the implementation):
      C05_block_algorithm_hidden_blind    HiddenBlind HOLDS for it (no longer a premise for block containers)
+     C05_block_algorithm_sets_zero_on_hidden   so does SetsZeroOnHidden
      C05_block_engine_hidden_invisible   hence the conclusion of C05_hidden_blind_engine for every engine whose nodes are block
                                          containers or leaves (any function of the node's own style and input)
    Interface hypotheses (premises, validated on the implementation by the metamorphic oracle `vh c05 oracle` and -- WF, H1 --
    by the event trace): WF, H1 (EngineDirty.v), SetsZeroOnHidden, HiddenBlind. *)
 From Coq Require Import List Bool Arith NArith ZArith QArith.
 From TV Require Import Num.Num Gen.BlockGen Model.Block.
-From TV Require Import Model.FiltersBase Gen.FiltersGen Model.ItemFilters Proofs.ItemFilters Model.BlockAlg Proofs.BlockAlgBlind.
+From TV Require Import Model.FiltersBase Gen.FiltersGen Model.ItemFilters Proofs.ItemFiltersBase Proofs.ItemFiltersHidden Model.BlockAlg Proofs.BlockAlgBlind.
 From TV Require Import Num.QNum Model.Common Model.Leaf Model.Root Proofs.LeafProofs Proofs.HiddenRoot.
 From TV Require Import Model.Engine Model.EngineToy Proofs.EngineMemo Proofs.EngineDirty Proofs.EngineToyProofs
   Proofs.EngineHidden Proofs.EngineBlind Proofs.EngineHiddenToy.
@@ -234,13 +235,18 @@ Qed.
 (* agree_except ig f f' cs: the style assignments f, f' to the children cs agree except on children whose style is in the
    class ig on both sides.  s_hidden bgm s := (bgm s == BoxGenerationMode::None). *)
 Theorem C05_flex_items_ignore_hidden :
-  forall (C S I : Type) (position : S -> GPosition) (bgm : S -> GBoxGenerationMode) (f f' : C -> S) (cs : list C)
-         (build : nat -> C -> S -> I),
-    agree_except (s_hidden bgm) f f' cs ->
-    flex_generate_items f position bgm build cs = flex_generate_items f' position bgm build cs.
+  forall (C S I : Type) (position : S -> GPosition) (bgm : S -> GBoxGenerationMode) (f f' : C -> S) (cs : list C),
+    (forall (build : nat -> C -> S -> I),
+       agree_except (s_hidden bgm) f f' cs ->
+       flex_generate_items f position bgm build cs = flex_generate_items f' position bgm build cs) /\
+    (* deleting the display:none children changes the items only in their index (`order` = source index) *)
+    (forall (build : C -> S -> I),
+       flex_generate_items f position bgm (fun _ => build) (filter (fun c => negb (s_hidden bgm (f c))) cs) =
+       flex_generate_items f position bgm (fun _ => build) cs).
 Proof.
-  intros C S I position bgm f f' cs build Ha. rewrite !flex_generate_items_nf. apply flex_nf_blind.
-  eapply agree_except_mono; [|exact Ha]. apply hidden_out_of_flow.
+  intros C S I position bgm f f' cs. split.
+  - intros build Ha. apply flex_hidden_blind. exact Ha.
+  - intros build. apply flex_delete_hidden.
 Qed.
 
 Theorem C05_block_items_ignore_hidden :
@@ -266,7 +272,7 @@ Theorem C05_grid_items_ignore_hidden :
     grid_estimate_children f position bgm cs = grid_estimate_children f' position bgm cs.
 Proof.
   intros C S position bgm f f' cs Ha. split.
-  - apply grid_in_flow_blind. eapply agree_except_mono; [|exact Ha]. apply hidden_out_of_flow.
+  - apply (grid_in_flow_hidden_blind position bgm f f' cs Ha).
   - apply grid_estimate_hidden_blind. exact Ha.
 Qed.
 
@@ -278,14 +284,19 @@ Theorem C05_model_filters_are_source :
   (forall (C S : Type) (position : S -> GPosition) (bgm : S -> GBoxGenerationMode) (style_of : C -> S) (placement : S -> child)
           (cs : list C),
      let children := map (fun c => (kind_of (position (style_of c)) (bgm (style_of c)), placement (style_of c))) cs in
-     in_flow_children children =
-       map (fun ics : nat * C * S => (Z.of_nat (fst (fst ics)), placement (snd ics))) (grid_in_flow_children style_of position bgm cs) /\
-     estimate_children children = map placement (grid_estimate_children style_of position bgm cs)).
+     estimate_children children = map placement (grid_estimate_children style_of position bgm cs) /\
+     (* placement's child iterator, on the C05 family of the placement K (no position:absolute child) *)
+     (Forall (fun c => position (style_of c) = Position_Relative) cs ->
+      in_flow_children children =
+        map (fun ics : nat * C * S => (Z.of_nat (fst (fst ics)), placement (snd ics))) (grid_in_flow_children style_of position bgm cs))) /\
+  (* which children step 5 of compute_inner lays out as hidden (Model/BlockAlg.v hidden_pass) *)
+  (forall (T : Type) (s : BStyle T) p, s_hidden bs_bgm s = block_hidden_pass_visits (bs_bgm s) p).
 Proof.
-  split.
+  split; [|split].
   - intros T N sts nis. apply generate_item_list_is_generated.
   - intros C S position bgm style_of placement cs children. split;
-      [apply placement_in_flow_is_generated|apply placement_estimate_is_generated].
+      [apply placement_estimate_is_generated|apply placement_in_flow_is_generated_no_absolute].
+  - intros T s p. apply hidden_pass_is_generated.
 Qed.
 
 (* the premise is satisfiable: a bare display:none style in place of any display:none style *)
@@ -311,6 +322,18 @@ Proof.
   intros T N pre abs_child. split; [apply block_alg_hidden_blind|]. split.
   - intros s st i. unfold block_alg. apply block_inner_alg_none_rel. apply hidden_view_rel.
   - intros a b Ha Hb. unfold hidden_view. rewrite Ha, Hb. reflexivity.
+Qed.
+
+(* ... and SetsZeroOnHidden (premise of C05_hidden_zero_self): the only layouts it stores on a display:none child are
+   `Layout::with_order(order)`, for every absolute-item routine that addresses only the item's own node *)
+Theorem C05_block_algorithm_sets_zero_on_hidden :
+  forall (T : Type) (N : Num T) (pre : BStyle T -> BIn T -> BIn T) (abs_child : @AbsChild T),
+    AbsChildLocal abs_child ->
+    SetsZeroOnHidden (BStyle T) (BIn T) (ChildOut T) (BLayout T) bs_is_none (block_alg pre abs_child) b_zeroish /\
+    (forall n, b_zeroish (with_order (T := T) n)).
+Proof.
+  intros T N pre abs_child Hloc. split; [apply block_alg_sets_zero_on_hidden; exact Hloc|].
+  intros n. exists (Z.of_nat n). reflexivity.
 Qed.
 
 (* engines made of block containers (sel s = true) and leaves: replacing display:none subtrees changes nothing elsewhere *)
@@ -376,4 +399,5 @@ Print Assumptions C05_block_items_ignore_hidden.
 Print Assumptions C05_grid_items_ignore_hidden.
 Print Assumptions C05_model_filters_are_source.
 Print Assumptions C05_block_algorithm_hidden_blind.
+Print Assumptions C05_block_algorithm_sets_zero_on_hidden.
 Print Assumptions C05_block_engine_hidden_invisible.
